@@ -13,7 +13,7 @@
 //	                   and so are composite literals / zero values of a struct that has one (no nil pointer can be built).
 //	type B A           a defined type whose underlying struct type is identical to that of a translated struct A is the SAME
 //	                   Record; the conversions (*A)(b), (*B)(a) are the identity on paths (receiver position only).
-//	int(u)             for a 64-bit unsigned u of the form e >> c (c >= 1), e & c, e % c (c a constant < 2^63): identity.
+//	int(u)             for a 64-bit unsigned u of the form e >> c (c >= 1), e / c (c >= 2), e & c, e % c (c a constant < 2^63): identity.
 //	S{f: e, ...}       composite literal of a translated struct with keyed fields (missing fields: zero value); a slice-typed
 //	                   field value may share its array only with a local variable that is never mentioned again.
 //	TransSpec.Ifaces   interface -> the pointer types *S (S translated) that implement it, as a sum type
@@ -23,6 +23,9 @@
 //	unsafe             `*(*[N]uintK)(unsafe.Pointer(&s[i]))`: s[i] is bounds-checked, the value read from memory is an extra
 //	                   PARAMETER mem'k : list Z of the generated function (theorems quantify over it; that the bytes behind the
 //	                   pointer exist is not checked).  A function with such a parameter cannot be called from translated code.
+//	TransSpec.Heads    of a function that cannot be translated as a whole: its leading simple declarations (`high := uint16(num >> 16)`:
+//	                   operators, len/cap/min/max, integer conversions) as g_<Func>_head <free variables> : M <the declared
+//	                   variables that are used afterwards, in declaration order> (the fragment machinery of [ext:T20]).
 //	slice out-params   a slice parameter that the body writes in place (p[i] = v, copy(p, ..), copy(p[a:b], ..)) and never
 //	                   reassigns as a whole is returned (after the receiver and the package-level state, before the results), so
 //	                   that the caller's view of the shared array is explicit.  Calls of such functions are refused for now.
@@ -415,6 +418,10 @@ func (c *fctx) fitsInt03(e ast.Expr) bool {
 			}
 		case token.REM:
 			if v, ok := c.constInt(be.Y); ok && constant.Sign(v) > 0 && constant.Compare(v, token.LEQ, limit) {
+				return true
+			}
+		case token.QUO:
+			if v, ok := c.constInt(be.Y); ok && constant.Compare(v, token.GEQ, constant.MakeInt64(2)) {
 				return true
 			}
 		}
@@ -852,4 +859,81 @@ func (t *Translator) onlyReads03(fn *types.Func, i int) bool {
 		return true
 	})
 	return ok
+}
+
+// ---- heads: the leading simple declarations of a function ---------------------------------------------------------------
+
+func (t *Translator) addHeads03(spec TransSpec) {
+	for _, fn := range spec.Heads {
+		fd := t.byName[fn]
+		if fd == nil {
+			t.fail(nil, "function %s (of a head fragment) not found", fn)
+		}
+		n := 0
+		for n < len(fd.Body.List) && t.simpleDecl20(fd.Body.List[n]) {
+			n++
+		}
+		if n == 0 {
+			t.fail(fd, "function %s does not start with a simple declaration", fn)
+		}
+		fr := &fragInfo{stmts: fd.Body.List[:n]}
+		end := fr.stmts[n-1].End()
+		inFrag := func(pos token.Pos) bool { return pos >= fr.stmts[0].Pos() && pos < end }
+		seen := map[types.Object]bool{}
+		var declared []*types.Var
+		for _, st := range fr.stmts {
+			ast.Inspect(st, func(m ast.Node) bool {
+				id, ok := m.(*ast.Ident)
+				if !ok {
+					return true
+				}
+				if v, ok := t.info.Defs[id].(*types.Var); ok && id.Name != "_" {
+					declared = append(declared, v)
+					return true
+				}
+				v, ok := t.info.Uses[id].(*types.Var)
+				if !ok || v.IsField() || seen[v] || v.Parent() == t.tpkg.Scope() || inFrag(v.Pos()) {
+					return true
+				}
+				seen[v] = true
+				fr.params = append(fr.params, v)
+				return true
+			})
+		}
+		sortVars := func(vs []*types.Var) {
+			for i := 1; i < len(vs); i++ {
+				for j := i; j > 0 && vs[j].Pos() < vs[j-1].Pos(); j-- {
+					vs[j], vs[j-1] = vs[j-1], vs[j]
+				}
+			}
+		}
+		sortVars(fr.params)
+		usedAfter := map[types.Object]bool{}
+		for _, st := range fd.Body.List[n:] {
+			ast.Inspect(st, func(m ast.Node) bool {
+				if id, ok := m.(*ast.Ident); ok {
+					if o := t.info.Uses[id]; o != nil {
+						usedAfter[o] = true
+					}
+				}
+				return true
+			})
+		}
+		for _, v := range declared {
+			if usedAfter[v] {
+				fr.results = append(fr.results, v)
+			}
+		}
+		sortVars(fr.results)
+		key := fn + ".head"
+		name := "g_" + strings.NewReplacer(".", "_", ":", "_").Replace(key)
+		decl := &ast.FuncDecl{Name: ast.NewIdent(name), Type: fd.Type, Body: &ast.BlockStmt{Lbrace: fr.stmts[0].Pos(), List: fr.stmts, Rbrace: end}}
+		obj := types.NewFunc(fr.stmts[0].Pos(), t.tpkg, name, types.NewSignatureType(nil, nil, nil, nil, nil, false))
+		fi := &funcInfo{decl: decl, obj: obj, goName: key, name: name, callees: map[*funcInfo]bool{}, frag: fr}
+		for _, v := range fr.results {
+			fi.results = append(fi.results, t.typeOf(v.Type(), fr.stmts[0]))
+		}
+		t.funcs[obj] = fi
+		t.global[name] = true
+	}
 }
